@@ -96,3 +96,217 @@ Section AutoNum.
   (* nitro.go:116,131,150,169,185,201,217 *)
   Definition auto_n (ndem nmin : T) : T := maxv (ndem - nmin) zero.
 End AutoNum.
+
+(* ------------------------------------------------------------------------------------------ *)
+(* the trigger conditions themselves, as functions of the state of the day                      *)
+
+Section Triggers.
+  Context {T : Type} {N : Num T}.
+  Local Open Scope num_scope.
+
+  (* relative plant-available water of the top layer incl. today's rain, percent (run.go:552/563, crop.go:186) *)
+  Definition nfk1 (wg00 regen dz wmin0 wnor0 : T) : T :=
+    ((wg00 + regen / dz - wmin0) / (wnor0 - wmin0)) * ofZ 100.
+
+  (* --- automatic sowing (run.go:541-572) --- *)
+  Record sow_env := {
+    se_tagnum : T; se_tagidx : Z; se_window : T;
+    se_temps : list T;                      (* TEMP[TAG-1], ..., TEMP[TAG-int(TSLWINDOW)] *)
+    se_temp : T; se_tjahrsum : T; se_tjahr : T; se_tslmin : T; se_tslmax : T;
+    se_wg00 : T; se_regen : T; se_regen_prev : T; se_dz : T; se_wmin0 : T; se_wnor0 : T;
+    se_minmoi : T; se_maxmoi : T }.
+
+  Definition slide_temp (e : sow_env) : T :=
+    (if se_window e <? se_tagnum e then fold_left add (se_temps e) zero else zero) / se_window e.
+
+  Definition sow_cond (e : sow_env) : bool :=
+    let st := slide_temp e in
+    let n1 := nfk1 (se_wg00 e) (se_regen e) (se_dz e) (se_wmin0 e) (se_wnor0 e) in
+    let moist := (n1 <=? se_maxmoi e) && (se_minmoi e <=? n1) in
+    let rain := (se_regen e <=? dec 5 1) && ((se_tagidx e <? 1)%Z || (se_regen_prev e <=? ofZ 5)) in
+    if se_tjahr e <? se_tjahrsum e then
+      if (zero <=? se_tslmin e) && (se_tslmax e <? zero) then
+        (se_tslmin e <=? st) && (se_tslmin e <=? se_temp e) && moist && rain
+      else if (se_tslmin e <? zero) && (zero <=? se_tslmax e) then
+        (st <=? se_tslmax e) && (se_temp e <=? se_tslmax e) && moist && rain
+      else false
+    else false.
+
+  (* --- automatic harvest (crop.go:150-156 stage advance, 183-199 condition) --- *)
+  Record harv_env := {
+    he_sum0 : T; he_tsum0 : T;               (* SUM[0], TSUM[0]: emergence reached *)
+    he_num : Z;                              (* int(INTWICK.Num) before the day's stage advance *)
+    he_nrentw : Z;                           (* number of development stages of the crop *)
+    he_sum : T; he_tsum : T;                 (* SUM/TSUM of the current stage before the advance *)
+    he_tsum_next : T;                        (* TSUM of the following stage *)
+    he_wg00 : T; he_regen : T; he_dz : T; he_wmin0 : T; he_wnor0 : T; he_minhmoi : T; he_maxhmoi : T;
+    he_tagnum : T; he_r1 : T; he_r2 : T; he_r3 : T; he_rainlim : T; he_rainact : T }.
+
+  (* stage number (INTWICK.Num), its temperature sum and target at the moment of the harvest test *)
+  Definition stage_at_test (e : harv_env) : Z * T * T :=
+    if (he_tsum e <=? he_sum e) && (he_num e <? he_nrentw e)%Z
+    then ((he_num e + 1)%Z, he_sum e - he_tsum e, he_tsum_next e)
+    else (he_num e, he_sum e, he_tsum e).
+
+  Definition harvest_cond (e : harv_env) : bool :=
+    let '(num, s, ts) := stage_at_test e in
+    let n1 := nfk1 (he_wg00 e) (he_regen e) (he_dz e) (he_wmin0 e) (he_wnor0 e) in
+    (he_tsum0 e <=? he_sum0 e) && (num =? he_nrentw e)%Z && (dec 6 1 * ts <? s) &&
+    (n1 <=? he_maxhmoi e) && (he_minhmoi e <=? n1) && (ofZ 3 <? he_tagnum e) &&
+    (he_regen e + he_r1 e + he_r2 e + he_r3 e <=? he_rainlim e) && (he_regen e <=? he_rainact e).
+
+  (* --- automatic irrigation (run.go:418-447) --- *)
+  (* layers: (WG[0][i], W[i], WMIN[i]); [rdz] = REGEN/DZ enters the first layer only *)
+  Fixpoint irr_sums (first : bool) (rdz : T) (ls : list (T * T * T)) (acc : T * T) : T * T :=
+    match ls with
+    | [] => acc
+    | (wg, w, wmin) :: r =>
+        let nfk0 := if first then (wg + rdz - wmin) / (w - wmin) else (wg - wmin) / (w - wmin) in
+        let defz0 := if first then (w - wg - rdz) * ofZ 100 else (w - wg) * ofZ 100 in
+        let nfk1 := if nfk0 <? zero then zero else nfk0 in
+        let '(nfk, defz) := if one <? nfk1 then (one, zero) else (nfk1, defz0) in
+        irr_sums false rdz r (fst acc + nfk, snd acc + defz)
+    end.
+
+  Record irr_env := {
+    ie_layers : list (T * T * T); ie_wurzmax : Z; ie_irrdep : T; ie_regen : T; ie_dz : T;
+    ie_irrlow : T; ie_rain1 : T; ie_rain2 : T }.
+
+  Definition irr_maxdepth (e : irr_env) : Z := Z.min (ie_wurzmax e) (truncZ (ie_irrdep e)).
+
+  (* (NFK50, DEFZSUM) *)
+  Definition irr_state (e : irr_env) : T * T :=
+    let md := irr_maxdepth e in
+    let '(nfksum, defzsum) := irr_sums true (ie_regen e / ie_dz e) (firstn (Z.to_nat md) (ie_layers e)) (zero, zero) in
+    (nfksum / ofZ md, defzsum).
+
+  Definition irr_cond (e : irr_env) : bool :=
+    (fst (irr_state e) <? ie_irrlow e) && (ie_rain1 e + ie_rain2 e <? dec 9 1).
+
+  Definition auto_irr_state (z saat : Z) (intwick irrst1 irrst2 irrmax : T) (e : irr_env) : option T :=
+    auto_irr z saat intwick irrst1 irrst2 (irr_cond e) (snd (irr_state e)) irrmax.
+
+  (* --- automatic fertilisation (nitro.go:73-226), one Nitro call in sub-step 1 --- *)
+  Record org_pay := { o_nsas : T; o_nlas : T; o_ndir : T }.
+
+  Record af_env := {
+    ae_z : Z; ae_akf : Z;
+    ae_saat : Z;                             (* SAAT[AKF] *)
+    ae_intwick : T; ae_tagnum : T;
+    ae_t5 : list T;                          (* TEMP[TAG], TEMP[TAG-1], ..., TEMP[TAG-4] *)
+    ae_regen : T; ae_regen_prev : T; ae_regen_next : T;
+    ae_c1 : list T;                          (* C1[0..8] *)
+    ae_wurz : Z;
+    ae_ndem1 : T; ae_ndem2 : T; ae_ndem3 : T;
+    (* organic fertiliser of the previous entry (applied after its harvest) and of the current one (after sowing) *)
+    ae_prev_h : bool;                        (* AKF.Num > 1 && ODU[AKF-1] == 1 && ORGTIME[AKF-1] == "H" *)
+    ae_ztdg_prev : Z; ae_pay_prev : org_pay;
+    ae_cur_s : bool;                         (* ODU[AKF] == 1 && ORGTIME[AKF-1] == "S"  (sic: the timing letter of the PREVIOUS entry) *)
+    ae_orgdoy : Z; ae_pay_cur : org_pay }.
+
+  Record af_state := {
+    as_ndoy1 : T; as_ndoy2 : T; as_ndoy3 : T;      (* NDOY1..3[AKF] *)
+    as_ztdg : Z;                                   (* ZTDG[AKF] *)
+    as_nfos0 : T; as_naos0 : T; as_dsumm : T; as_c10 : T; as_nfertsim : T }.
+
+  Definition sum_first (n : nat) (l : list T) : T := fold_left add (firstn n l) zero.
+
+  Definition t5_sum (l : list T) : T :=
+    nth 0 l zero + nth 1 l zero + nth 2 l zero + nth 3 l zero + nth 4 l zero.
+
+  (* a mineral dose: NFERTSIM += d; DSUMM += d *)
+  Definition dose (s : af_state) (d : T) : af_state :=
+    {| as_ndoy1 := as_ndoy1 s; as_ndoy2 := as_ndoy2 s; as_ndoy3 := as_ndoy3 s; as_ztdg := as_ztdg s;
+       as_nfos0 := as_nfos0 s; as_naos0 := as_naos0 s; as_dsumm := as_dsumm s + d; as_c10 := as_c10 s;
+       as_nfertsim := as_nfertsim s + d |}.
+  Definition set_ndoy (which : Z) (s : af_state) (v : T) : af_state :=
+    {| as_ndoy1 := if (which =? 1)%Z then v else as_ndoy1 s; as_ndoy2 := if (which =? 2)%Z then v else as_ndoy2 s;
+       as_ndoy3 := if (which =? 3)%Z then v else as_ndoy3 s; as_ztdg := as_ztdg s;
+       as_nfos0 := as_nfos0 s; as_naos0 := as_naos0 s; as_dsumm := as_dsumm s; as_c10 := as_c10 s;
+       as_nfertsim := as_nfertsim s |}.
+
+  (* events of a call: (kind, amount) with kind 0 = organic after harvest (logged), 1 = organic after sowing (not
+     logged), 2/3/4 = mineral application 1/2/3 (logged) *)
+
+  (* organic fertiliser of the previous entry, ORGDOY days after its harvest (nitro.go:74-89) *)
+  Definition af_orgh (e : af_env) (s : af_state) : af_state * list (Z * T) :=
+    if ae_prev_h e && (ae_z e =? ae_ztdg_prev e)%Z then
+      ({| as_ndoy1 := as_ndoy1 s; as_ndoy2 := as_ndoy2 s; as_ndoy3 := as_ndoy3 s; as_ztdg := as_ztdg s;
+          as_nfos0 := as_nfos0 s + o_nsas (ae_pay_prev e); as_naos0 := as_naos0 s + o_nlas (ae_pay_prev e);
+          as_dsumm := as_dsumm s + o_ndir (ae_pay_prev e); as_c10 := as_c10 s; as_nfertsim := as_nfertsim s |},
+       [(0%Z, o_ndir (ae_pay_prev e))])
+    else (s, []).
+
+  (* organic fertiliser of the current entry, ORGDOY days after its sowing (nitro.go:92-107) *)
+  Definition af_orgs (e : af_env) (s : af_state) : af_state * list (Z * T) :=
+    if ae_cur_s e then
+      let zt := if (ae_z e =? ae_saat e)%Z then (ae_z e + ae_orgdoy e)%Z else as_ztdg s in
+      if (ae_z e =? zt)%Z then
+        let c := as_c10 s + o_ndir (ae_pay_cur e) in
+        ({| as_ndoy1 := as_ndoy1 s; as_ndoy2 := as_ndoy2 s; as_ndoy3 := as_ndoy3 s; as_ztdg := zt;
+            as_nfos0 := as_nfos0 s + o_nsas (ae_pay_cur e); as_naos0 := as_naos0 s + o_nlas (ae_pay_cur e);
+            as_dsumm := as_dsumm s; as_c10 := if c <? zero then zero else c; as_nfertsim := as_nfertsim s |},
+         [(1%Z, o_ndir (ae_pay_cur e))])
+      else
+        ({| as_ndoy1 := as_ndoy1 s; as_ndoy2 := as_ndoy2 s; as_ndoy3 := as_ndoy3 s; as_ztdg := zt;
+            as_nfos0 := as_nfos0 s; as_naos0 := as_naos0 s; as_dsumm := as_dsumm s; as_c10 := as_c10 s;
+            as_nfertsim := as_nfertsim s |}, [])
+    else (s, []).
+
+  (* first mineral application (nitro.go:109-162): at sowing (NDOY1 = 0), at a development stage (NDOY1 = 1..9) or on
+     the first warm, dry day after day-of-year NDOY1 *)
+  Definition af_min1 (e : af_env) (d1 : T) (s : af_state) : af_state * list (Z * T) :=
+    if as_ndoy1 s <? ofZ 10 then
+      if as_ndoy1 s =? zero then
+        if (ae_z e =? ae_saat e)%Z then (dose s d1, [(2%Z, d1)]) else (s, [])
+      else if ae_intwick e =? as_ndoy1 s then (set_ndoy 1 (dose s d1) zero, [(2%Z, d1)]) else (s, [])
+    else
+      if (as_ndoy1 s <? ae_tagnum e) && (ae_tagnum e <? ofZ 210) && (as_ndoy1 s <? ofZ 365) &&
+         (ofZ 20 <? t5_sum (ae_t5 e)) && (ae_regen e + ae_regen_prev e <? dec 4 1) && (ae_regen_next e <? ofZ 4)
+      then (set_ndoy 1 (dose s d1) (ofZ 370), [(2%Z, d1)]) else (s, []).
+
+  (* second / third application (nitro.go:163-226): at a development stage or on day-of-year NDOYn *)
+  Definition af_minn (which : Z) (e : af_env) (ndoy d : T) (s : af_state) : af_state * list (Z * T) :=
+    if ndoy <? ofZ 10 then
+      if ae_intwick e =? ndoy then (set_ndoy which (dose s d) zero, [((which + 1)%Z, d)]) else (s, [])
+    else if ae_tagnum e =? ndoy then (dose s d, [((which + 1)%Z, d)]) else (s, []).
+
+  Definition autofert_day (e : af_env) (s : af_state) : af_state * list (Z * T) :=
+    let '(s, ev0) := af_orgh e s in
+    if (0 <? ae_saat e)%Z && (ae_saat e <=? ae_z e)%Z then
+      let '(s, ev1) := af_orgs e s in
+      (* Nmin of the upper 3 dm / of the rooted depth (at most 9 dm), with the top layer as just updated *)
+      let c1 := match ae_c1 e with [] => [] | _ :: r => as_c10 s :: r end in
+      let nmin30 := sum_first 3 c1 in
+      let nminw := sum_first (Z.to_nat (Z.min (ae_wurz e) 9)) c1 in
+      let '(s, ev2) := af_min1 e (auto_n (ae_ndem1 e) nmin30) s in
+      let '(s, ev3) := af_minn 2 e (as_ndoy2 s) (auto_n (ae_ndem2 e) nminw) s in
+      let '(s, ev4) := af_minn 3 e (as_ndoy3 s) (auto_n (ae_ndem3 e) nminw) s in
+      (s, ev0 ++ ev1 ++ ev2 ++ ev3 ++ ev4)
+    else (s, ev0).
+End Triggers.
+Arguments sow_env : clear implicits.
+Arguments harv_env : clear implicits.
+Arguments irr_env : clear implicits.
+Arguments af_env : clear implicits.
+Arguments af_state : clear implicits.
+Arguments org_pay : clear implicits.
+
+(* ------------------------------------------------------------------------------------------ *)
+(* harvest with organic fertiliser "H" and the crop-skip branch (nitro.go:458-528)              *)
+
+(* what the harvest of entry k on day z does to the cursor and to ZTDG[k]:
+   [org_h k] = ODU[k] == 1 && ORGTIME[k] == "H"; returns (new AKF, new ZTDG[k], skipped?) *)
+Definition harvest_cursor (z k : Z) (org_h : Z -> bool) (orgdoy : Z -> Z) (saat2 : Z -> Z) (automan : bool) (ztdg_k : Z)
+  : Z * Z * bool :=
+  let zt := if org_h k then z + orgdoy k else ztdg_k in
+  let k1 := k + 1 in
+  if (saat2 k1 <=? z) && automan && org_h (k1 - 1) then (k1 + 1, zt, true) else (k1, zt, false).
+
+(* the days after the harvest while the next entry stays current: the organic fertiliser of entry k is applied
+   when zeit == ZTDG[k]; [fuel] days starting at z *)
+Fixpoint orgh_days (ztdg : Z) (fuel : nat) (z : Z) : list Z :=
+  match fuel with
+  | O => []
+  | S f => (if z =? ztdg then [z] else []) ++ orgh_days ztdg f (z + 1)
+  end.
